@@ -159,7 +159,7 @@ Definition insert (G : entries) (heads : list block) (h : block) (b : bit) : ent
                      | Some [] => append_node G heads h
                      | Some ds => (introduce_branch G ds h, heads)
                      end in
-  (propagate (S (length G)) G h b, heads).
+  (propagate (S (h + length G)) G h b, heads).   (* fuel: the walk goes to blocks of smaller index *)
 
 (* ghostFindMergePoint: returns the best block (last hash of the sub-chain) *)
 Definition dnodes := list (block * entry).
